@@ -108,7 +108,7 @@ def run(ctx):
         text = c.get("text") or fmtlib.layout(fmtlib.spellings(toks), ctx.rng, gc)
         cases.append(mk_case(text, (c.get("insert_spaces", True), c.get("tab_size", 4)), toks, gc))
         labels.append("corpus")
-    nprog, nmulti = (1500, 6000) if ctx.thorough() else (210, 1200)
+    nprog, nmulti = (1000, 6000) if ctx.thorough() else (210, 1200)
     progs = 0
     import random
     for p in range(nprog):
